@@ -96,6 +96,12 @@ Record fnode := {
   fn_mode : Z;
   fn_size : Z }.
 
+(* tar.Header.FileInfo().Mode() on the low 12 bits of header.Mode: permission bits, and
+   c_ISUID / c_ISGID / c_ISVTX become fs.ModeSetuid (1<<23) / fs.ModeSetgid (1<<22) / fs.ModeSticky (1<<20) *)
+Definition header_file_mode (m : Z) : Z :=
+  Z.land m 511 + (if Z.testbit m 11 then 8388608 else 0) + (if Z.testbit m 10 then 4194304 else 0)
+               + (if Z.testbit m 9 then 1048576 else 0).
+
 Definition fn_is_dir (n : fnode) : bool := Z.testbit (fn_mode n) 31.
 Definition fn_is_symlink (n : fnode) : bool := Z.testbit (fn_mode n) 27.
 
@@ -294,7 +300,7 @@ Definition process_entry (cfg : config) (i : nat) (st : state) (e : entry) : ste
           match d' with
           | None => Fatal
           | Some d1 => finish {| fn_origin := i; fn_vpath := vp; fn_target := []; fn_wh := wh;
-                                 fn_mode := Z.lor (e_mode e) mode_dir; fn_size := 0 |} d1
+                                 fn_mode := Z.lor (header_file_mode (e_mode e)) mode_dir; fn_size := 0 |} d1
           end
       | KReg =>
           match write_file i sg (take_z (cfg_max_bytes cfg) (e_content e)) (st_disk st) with
@@ -303,7 +309,7 @@ Definition process_entry (cfg : config) (i : nat) (st : state) (e : entry) : ste
               if Z.of_nat (length (e_content e)) >=? cfg_max_bytes cfg
               then Next {| st_chains := st_chains st; st_disk := d1 |}    (* ErrFileReadLimitExceeded: entry skipped, file stays on disk *)
               else finish {| fn_origin := i; fn_vpath := vp; fn_target := []; fn_wh := wh;
-                             fn_mode := e_mode e; fn_size := Z.of_nat (length (e_content e)) |} d1
+                             fn_mode := header_file_mode (e_mode e); fn_size := Z.of_nat (length (e_content e)) |} d1
           end
       | KSym | KHard =>
           match e_target e with
